@@ -40,6 +40,8 @@ def run(ctx, rep):
     oprules.check_forward(ctx, rep)
     fillrules.check_process_polygon(ctx, rep, rules=('S-fill', 'W-left', 'W-collapsed', 'W-iter', 'B-acc'))
     fillrules.check_fill_queue(ctx, rep, rules=('B-acc', 'X-opsites', 'W-iter'))
+    import witness
+    witness.check(ctx, rep, ['WPairings', 'WPairingsNeg'], rule='W-types')
     # W-winding: nothing in the default configuration reads the ring-orientation flag or computes a ring orientation
     f = ctx.facts()
     reads = field_reads(f, 'is_exterior_ring')
